@@ -855,6 +855,7 @@ pub fn generate(prop: &str, rng: &mut Rng, tier: &Tier) -> Vec<Case> {
         "C20" => {
             let mut c = gen_copy(rng, tier);
             c.extend(gen_cache(rng, tier));
+            c.extend(crate::gen2::gen_source_cache(rng, tier));
             c
         }
         p => crate::gen2::generate(p, rng, tier),
